@@ -750,7 +750,7 @@ class XYFit(FitBase):
         if x is None:
             x = self.x_model
         if self.parameter_cov_mat is None:
-            return np.zeros_like(x)
+            return np.zeros_like(x, dtype=float)
 
         _f_deriv_by_params = self.eval_model_function_derivative_by_parameters(x=x)
         # here: df/dp[par_idx]|x=x[x_idx] = _f_deriv_by_params[par_idx][x_idx]
@@ -758,7 +758,7 @@ class XYFit(FitBase):
         _f_deriv_by_params = _f_deriv_by_params.T
         # here: df/dp[par_idx]|x=x[x_idx] = _f_deriv_by_params[x_idx][par_idx]
 
-        _band_y = np.zeros_like(x)
+        _band_y = np.zeros_like(x, dtype=float)  # (integer x values must not truncate the band)
 
         # Cut out fixed parameters which have nan as derivative:
         _not_pars_fixed = [_par_name not in self._fitter.fixed_parameters for _par_name in self.parameter_names]
